@@ -19,7 +19,7 @@ SELS = ['ALL', 'INSIDE', 'OUTSIDE', 'BOTH']
 COQ_FILES = ['Hier/Paths', 'Hier/Enum', 'Hier/Trace', 'Hier/Conn', 'Proofs/HierValid', 'Proofs/HierEnum',
              'Proofs/HierClosure', 'Proofs/HierC11', 'Proofs/HierTrace', 'Proofs/HierNarrow', 'Proofs/HierTraceEx',
              'Props/C11', 'Props/C12', 'Extract/ExtractHier']
-BUDGET = {('C11', 'quick'): 110, ('C11', 'thorough'): 2400, ('C12', 'quick'): 140, ('C12', 'thorough'): 3000}
+BUDGET = {('C11', 'quick'): 110, ('C11', 'thorough'): 6000, ('C12', 'quick'): 140, ('C12', 'thorough'): 6000}
 
 
 # ------------------------------------------------------------------------------------ build
